@@ -53,7 +53,11 @@ def check(run):
         "or answers requests around their read timeout; deliver-close (3 s): final responses of 1..3 managed requests delivered on one "
         "goroutine while the handler is closed on another (close() alone, and cancel of the connection context first, as Close does) - after "
         "both returned every request must be complete: channel closed and (frame received or Err() != nil), verdict request-stuck with the "
-        "iteration and the request's state. Every Send returns a value or an error, every Close returns, the child survives; "
+        "iteration and the request's state; handshake-steps (deterministic, 66 sessions): close / peer loss at every step of the handshake "
+        "(before OPTIONS, after SUPPORTED, after AUTHENTICATE; with and without credentials; v4, v5) for AcceptHandshake (raw TCP client), "
+        "InitiateHandshake (raw TCP server), PerformHandshake (one end closed before / 0.2 ms / 1 ms into the call) and BindAndInit - each "
+        "must return within 4 s (verdict handshake-hangs with entry point, step, stacks) and leave no goroutine of a connection behind. "
+        "Every Send returns a value or an error, every Close returns, the child survives; "
         "verdict panic carries the panic value and stack (recovered in the caller) or the child's exit status and the runtime's panic message "
         "(library goroutine), close-hangs the stacks after 6 s without progress. Probabilistic: detection rates on the pre-fix code are in "
         "notes/inflight.md. Observed, not judged (evidence notes): Close() called from a connection's own handler; a timed-out request keeps "
